@@ -294,6 +294,80 @@ func run(c *rig.Ctx) {
 		c.Exact(1)
 		c.Count("sequence_cases", 1)
 	})
+	// Streams of select-line stores as programs for other members of the family send them (a Super
+	// Game Boy command packet is 128 bits clocked out over the two select lines, framed by a
+	// pulse with both lines low): on this machine they are ordinary stores to the select bits.
+	// Half of the images carry the header flags such programs carry (0146=03, 014B=33, 0143=80).
+	c.Part("select-streams", c.N(64, 640), func(i int64, r *rig.Rng) {
+		img := append([]byte{}, rom...)
+		if i%2 == 0 {
+			img[0x146], img[0x14b] = 0x03, 0x33
+			if i%4 == 0 {
+				img[0x143] = 0x80
+			}
+			c.Count("select_streams_with_sgb_header", 1)
+		}
+		m := rig.MustNew(img, rig.Opts{})
+		cur := jstate{}
+		w := func(v uint8) {
+			m.Mem.Write(0xff00, v)
+			cur.sel = v & 0x30
+		}
+		probe := func(what string) bool {
+			if got := m.Mem.Read(0xff00); got != cur.read() {
+				c.Violate("select-stream-"+classOf(cur), fmt.Sprintf("%s, select %02X: JOYP=%02X want %02X", what, cur.sel, got, cur.read()), nil)
+				return false
+			}
+			return true
+		}
+		for pk := 0; pk < 1+r.Intn(3); pk++ {
+			var packet [16]uint8
+			switch r.Intn(3) {
+			case 0:
+				packet[0], packet[1] = 0x89, r.Pick8([]uint8{0x01, 0x03, 0x00}) // "multiplayer request"
+			case 1:
+				packet[0] = uint8(r.Intn(0x20))<<3 | 1
+				for k := 1; k < 16; k++ {
+					packet[k] = r.U8()
+				}
+			case 2:
+				for k := range packet {
+					packet[k] = r.U8()
+				}
+			}
+			w(0x00)
+			w(0x30)
+			for k := 0; k < 128; k++ {
+				if packet[k/8]>>(uint(k)%8)&1 != 0 {
+					w(0x10)
+				} else {
+					w(0x20)
+				}
+				w(0x30)
+				if k%37 == 36 {
+					e := events[r.Intn(16)]
+					applyReal(m, e)
+					cur = cur.apply(e)
+				}
+			}
+			w(0x20)
+			w(0x30)
+			c.Count("select_stream_packets", 1)
+			// the usual pad polling afterwards, each read judged
+			for k := 0; k < 12; k++ {
+				if r.Chance(1, 3) {
+					e := events[r.Intn(16)]
+					applyReal(m, e)
+					cur = cur.apply(e)
+				}
+				w(r.Pick8([]uint8{0x30, 0x10, 0x30, 0x20, 0x30, 0x00}))
+				if !probe(fmt.Sprintf("after %d packet(s) and %d more select stores", pk+1, k+1)) {
+					return
+				}
+			}
+		}
+		c.Case(rig.Hash(uint64(i), r.U64()))
+	})
 	c.MarkExhaustive(fmt.Sprintf("all press/release sequences of length %d from power-on", L))
 	c.Count("reference_states", 0)
 	if c.Shard == 0 {
